@@ -10,6 +10,7 @@ package interp
 // engine's reflect model. Integer magnitudes are NOT bounded.
 
 import (
+	"errors"
 	"go/constant"
 	"reflect"
 )
@@ -205,7 +206,135 @@ func vh_C03_materialise() {
 	vAssert("C03.materialise.value", vBigEq(got, x))
 }
 
+// ---- folding of typed integer constants -------------------------------------
+//
+// Operands of a typed constant expression are values of the type itself
+// (const a uint8 = 200 is a reflect uint8); the *Const functions compute in the
+// type, where arithmetic wraps, and constOverflow (called by cfg right after
+// the folding, a sequence this harness repeats) must reject exactly the
+// expressions whose exact value does not fit the type, as go/types does.
+
+func vhTypedOperand(k reflect.Kind, label string) (reflect.Value, vBig) {
+	switch k {
+	case reflect.Int:
+		x := vNondetInt(label)
+		return reflect.ValueOf(x), vBigInt64(int64(x))
+	case reflect.Int8:
+		x := vNondetInt8(label)
+		return reflect.ValueOf(x), vBigInt64(int64(x))
+	case reflect.Int16:
+		x := vNondetInt16(label)
+		return reflect.ValueOf(x), vBigInt64(int64(x))
+	case reflect.Int32:
+		x := vNondetInt32(label)
+		return reflect.ValueOf(x), vBigInt64(int64(x))
+	case reflect.Int64:
+		x := vNondetInt64(label)
+		return reflect.ValueOf(x), vBigInt64(x)
+	case reflect.Uint:
+		x := vNondetUint(label)
+		return reflect.ValueOf(x), vBigUint64(uint64(x))
+	case reflect.Uint8:
+		x := vNondetUint8(label)
+		return reflect.ValueOf(x), vBigUint64(uint64(x))
+	case reflect.Uint16:
+		x := vNondetUint16(label)
+		return reflect.ValueOf(x), vBigUint64(uint64(x))
+	case reflect.Uint32:
+		x := vNondetUint32(label)
+		return reflect.ValueOf(x), vBigUint64(uint64(x))
+	case reflect.Uint64:
+		x := vNondetUint64(label)
+		return reflect.ValueOf(x), vBigUint64(x)
+	}
+	x := uintptr(vNondetUint64(label))
+	return reflect.ValueOf(x), vBigUint64(uint64(x))
+}
+
+func vmCfgErrorf(n *node, format string, a ...interface{}) *cfgError {
+	return &cfgError{n, errors.New("constant overflows its type")}
+}
+
+var vhTypedActs = []action{aAdd, aSub, aMul, aQuo, aShl, aNeg, aRem, aAnd, aOr, aXor, aAndNot, aShr}
+
+func vh_C03_fold_typed() {
+	k := reflect.Kind(vhKind)
+	act := vhTypedActs[vhOp]
+	xv, x := vhTypedOperand(k, "x")
+	yv, y := vhTypedOperand(k, "y")
+	typ := &itype{cat: intT, rtype: vTypeOfKind(vhKind)}
+	n := &node{interp: vhNewInterp(), typ: typ, action: act}
+	n.child = []*node{{rval: xv, typ: typ}, {rval: yv, typ: typ}}
+	var want vBig
+	sc := 0
+	switch act {
+	case aAdd:
+		want = vBigAdd(x, y)
+	case aSub:
+		want = vBigSub(x, y)
+	case aMul:
+		want = vBigMul(x, y)
+	case aQuo, aRem:
+		vAssume(!vBigEq(y, vBigInt64(0))) // division by zero is rejected by the type check before folding
+		if act == aQuo {
+			want = vBigQuo(x, y)
+			// the toolchain (go/constant) divides int64-sized operands with machine
+			// arithmetic: MinInt64 / -1 is MinInt64 (see vh_C03_fold); it is the reference
+			minI := vBigNeg(vBigPow2(63))
+			if vBigEq(x, minI) && vBigEq(y, vBigInt64(-1)) {
+				want = minI
+			}
+		} else {
+			want = vBigRem(x, y)
+		}
+	case aShl, aShr:
+		// the count is an unsigned constant 0..70
+		s := vNondetInt("s")
+		vAssume(s >= 0)
+		vAssume(s <= 70)
+		sc = vConcretizeInt(s, 0, 70)
+		n.child[1] = &node{rval: reflect.ValueOf(uint(sc)), typ: &itype{cat: uintT, rtype: vTypeOfKind(int(reflect.Uint))}}
+		if act == aShl {
+			want = vBigMul(x, vBigPow2(sc))
+		} else {
+			q := vBigQuo(x, vBigPow2(sc))
+			if vBigLt(x, vBigInt64(0)) && !vBigEq(vBigMul(q, vBigPow2(sc)), x) {
+				q = vBigSub(q, vBigInt64(1))
+			}
+			want = q
+		}
+	case aNeg:
+		n.child = n.child[:1]
+		want = vBigNeg(x)
+	default:
+		// and, or, xor, andNot never leave the type: only the absence of an error is asserted
+		want = vBigInt64(0)
+	}
+	fits := vBigLe(vKindMin(k), want) && vBigLe(want, vKindMax(k))
+	vReach("C03.typed")
+	constOp[act](n)
+	err := constOverflow(n)
+	switch act {
+	case aAnd, aOr, aXor, aAndNot:
+		vAssert("C03.typed.no-spurious-overflow", err == nil)
+		return
+	}
+	vAssert("C03.typed.overflow-rejected", fits || err != nil)
+	vAssert("C03.typed.no-spurious-overflow", !fits || err == nil)
+	if fits && err == nil {
+		var got vBig
+		switch k {
+		case reflect.Int, reflect.Int8, reflect.Int16, reflect.Int32, reflect.Int64:
+			got = vBigInt64(n.rval.Int())
+		default:
+			got = vBigUint64(n.rval.Uint())
+		}
+		vAssert("C03.typed.value", n.rval.Kind() == k && vBigEq(got, want))
+	}
+}
+
 var vhRegistry = map[string]func(){
+	"vh_C03_fold_typed": vh_C03_fold_typed,
 	"vh_C03_repr_int": vh_C03_repr_int, "vh_C03_repr_other": vh_C03_repr_other, "vh_C03_fold": vh_C03_fold,
 	"vh_C03_shift": vh_C03_shift, "vh_C03_bitwise": vh_C03_bitwise, "vh_C03_materialise": vh_C03_materialise, "vv_models": vv_models,
 }
